@@ -174,6 +174,25 @@ int main(int argc, char** argv) {
     PRED("intzero", izero, 0)
 #undef PRED
   }
+  // operands that are compound expressions (operators binding less tightly than the comparison): the macros must
+  // compare the VALUES of their arguments
+  for (int x = 0; x <= 7; x++)
+    for (int y : {2, 5}) {
+#define RELX(OPNAME, MACRO, AEXPR, BEXPR, MSG)                                                              \
+  {                                                                                                         \
+    vt::J j;                                                                                                \
+    j.str("e", "rel").str("op", OPNAME).str("kind", "expr").num("a", (long long)(AEXPR)).num("b", (long long)(BEXPR)); \
+    record(string("relx") + OPNAME, j, __LINE__, [&]() { MACRO(AEXPR, BEXPR); }, MSG);                      \
+  }
+      RELX("eq", expect_eq, x | 4, y, " != ")
+      RELX("ne", expect_ne, x & 6, y & 6, " == ")
+      RELX("gt", expect_gt, x ^ 1, y | 1, " <= ")
+      RELX("ge", expect_ge, x & 5, y, " < ")
+      RELX("lt", expect_lt, x | 1, x > 3 ? y : 7, " >= ")
+      RELX("le", expect_le, x | 4, y, " > ")
+      RELX("le", expect_le, x & 7, y & 3, " > ")
+#undef RELX
+    }
   for (int v = 0; v <= 1; v++) {
     vt::J j;
     j.str("e", "rel").str("op", "expect").str("kind", "bool").num("a", v).num("b", 0);
